@@ -8,6 +8,7 @@ pub mod c04;
 pub mod c05;
 pub mod c06;
 pub mod c08;
+pub mod c13;
 pub mod c14;
 pub mod c15;
 pub mod c17;
@@ -15,7 +16,7 @@ pub mod c18;
 pub mod c19;
 pub mod c20;
 
-pub const ALL: &[&str] = &["C01", "C02", "C03", "C04", "C05", "C06", "C08", "C14", "C15", "C17", "C18", "C19", "C20"];
+pub const ALL: &[&str] = &["C01", "C02", "C03", "C04", "C05", "C06", "C08", "C13", "C14", "C15", "C17", "C18", "C19", "C20"];
 
 pub fn get(id: &str, tier: Tier) -> Option<Prop> {
   Some(match id {
@@ -26,6 +27,7 @@ pub fn get(id: &str, tier: Tier) -> Option<Prop> {
     "C05" => c05::prop(tier),
     "C06" => c06::prop(tier),
     "C08" => c08::prop(tier),
+    "C13" => c13::prop(tier),
     "C14" => c14::prop(tier),
     "C15" => c15::prop(tier),
     "C17" => c17::prop(tier),
